@@ -458,3 +458,88 @@ def capture_origin(F, body, v, through=('Clone::clone', 'Arc::clone', 'Deref::de
             continue
         break
     return body, v
+
+
+def loop_carried_user_locals(b, head, ignore=()):
+    """User variables whose value can flow from one turn of the loop at `head` (an Iterator::next call) into
+    the next: written somewhere in the loop body and read in the body on a path from the loop head that has not
+    passed a (whole) write of this turn. Statement order inside a block is respected. Returns
+    [(local, name, block of the read)]."""
+    from taint import rv_operands, op_locals
+    some = b.branch(head, 'Some')
+    if not some:
+        return []
+    body = b.reach([e[1] for e in some], cut_blocks=[head.bb])
+    body.discard(head.bb)
+    users = {}
+    for d in b.j['debug']:
+        if not d['place']['p']:
+            users[d['place']['l']] = d['name']
+    out = []
+
+    def events(i):
+        """ordered (kind, local) events of block i: ('def', l) whole writes, ('use', l) reads"""
+        ev = []
+        bl = b.blocks[i]
+        for st in bl['stmts']:
+            if st['k'] != 'assign':
+                continue
+            for o in rv_operands(st['rv']):
+                for l in op_locals(o):
+                    ev.append(('use', l))
+            if st['rv']['k'] == 'ref':
+                ev.append(('use', st['rv']['place']['l']))
+            if st['rv']['k'] == 'discr':
+                ev.append(('use', st['rv']['place']['l']))
+            if st['lhs']['p']:
+                ev.append(('use', st['lhs']['l']))      # a partial write keeps the rest
+                ev.append(('pdef', st['lhs']['l']))
+            else:
+                ev.append(('def', st['lhs']['l']))
+        t = bl['term']
+        if t['k'] == 'call':
+            for o in list(t['args']) + ([t['fnptr']] if t.get('fnptr') else []):
+                for l in op_locals(o):
+                    ev.append(('use', l))
+            if t['dest']['p']:
+                ev.append(('pdef', t['dest']['l']))
+            else:
+                ev.append(('def', t['dest']['l']))
+        elif t['k'] == 'switch':
+            o = t.get('on') or t.get('discr')
+            if isinstance(o, dict):
+                for l in op_locals(o):
+                    ev.append(('use', l))
+        return ev
+    evs = dict((i, events(i)) for i in body)
+    for l, name in sorted(users.items()):
+        if l in ignore:
+            continue
+        written = [i for i in body if any(k in ('def', 'pdef') and x == l for (k, x) in evs[i])]
+        if not written:
+            continue
+        # blocks reachable from the head's Some edge without passing a whole write of l
+        seen = set()
+        dq = [e[1] for e in some]
+        hit = None
+        while dq and hit is None:
+            i = dq.pop()
+            if i in seen or i not in body:
+                continue
+            seen.add(i)
+            killed = False
+            for (k, x) in evs[i]:
+                if x != l:
+                    continue
+                if k == 'use':
+                    hit = i
+                    break
+                if k == 'def':
+                    killed = True
+                    break
+            if hit is not None or killed:
+                continue
+            dq += [t for t in b.succ[i] if t in body]
+        if hit is not None:
+            out.append((l, name, hit))
+    return out
